@@ -107,6 +107,19 @@ func unwrap(v interface{}) interface{} {
 // PrepareQuery checks that the given selectionSet matches the schema typ, and
 // parses the args in selectionSet
 func PrepareQuery(ctx context.Context, typ Type, selectionSet *SelectionSet) error {
+	return prepareQuery(ctx, typ, selectionSet, make(map[preparedSelectionSet]struct{}))
+}
+
+// preparedSelectionSet identifies a selection set that has been checked against a
+// type. The selection set of a named fragment is shared by all of its spreads, so
+// without remembering it a query nesting fragment spreads would be checked a number
+// of times exponential in its size.
+type preparedSelectionSet struct {
+	typ          Type
+	selectionSet *SelectionSet
+}
+
+func prepareQuery(ctx context.Context, typ Type, selectionSet *SelectionSet, prepared map[preparedSelectionSet]struct{}) error {
 	switch typ := typ.(type) {
 	case *Scalar:
 		if selectionSet != nil {
@@ -122,13 +135,17 @@ func PrepareQuery(ctx context.Context, typ Type, selectionSet *SelectionSet) err
 		if selectionSet == nil {
 			return NewClientError("object field must have selections")
 		}
+		if _, ok := prepared[preparedSelectionSet{typ, selectionSet}]; ok {
+			return nil
+		}
+		prepared[preparedSelectionSet{typ, selectionSet}] = struct{}{}
 
 		for _, fragment := range selectionSet.Fragments {
 			for typString, graphqlTyp := range typ.Types {
 				if fragment.On != typString {
 					continue
 				}
-				if err := PrepareQuery(ctx, graphqlTyp, fragment.SelectionSet); err != nil {
+				if err := prepareQuery(ctx, graphqlTyp, fragment.SelectionSet, prepared); err != nil {
 					return err
 				}
 			}
@@ -153,6 +170,10 @@ func PrepareQuery(ctx context.Context, typ Type, selectionSet *SelectionSet) err
 		if selectionSet == nil {
 			return NewClientError("object field must have selections")
 		}
+		if _, ok := prepared[preparedSelectionSet{typ, selectionSet}]; ok {
+			return nil
+		}
+		prepared[preparedSelectionSet{typ, selectionSet}] = struct{}{}
 		for _, selection := range selectionSet.Selections {
 			if selection.Name == "__typename" {
 				if !isNilArgs(selection.UnparsedArgs) {
@@ -181,22 +202,22 @@ func PrepareQuery(ctx context.Context, typ Type, selectionSet *SelectionSet) err
 
 			selection.ParentType = typ.Name
 
-			if err := PrepareQuery(ctx, field.Type, selection.SelectionSet); err != nil {
+			if err := prepareQuery(ctx, field.Type, selection.SelectionSet, prepared); err != nil {
 				return err
 			}
 		}
 		for _, fragment := range selectionSet.Fragments {
-			if err := PrepareQuery(ctx, typ, fragment.SelectionSet); err != nil {
+			if err := prepareQuery(ctx, typ, fragment.SelectionSet, prepared); err != nil {
 				return err
 			}
 		}
 		return nil
 
 	case *List:
-		return PrepareQuery(ctx, typ.Type, selectionSet)
+		return prepareQuery(ctx, typ.Type, selectionSet, prepared)
 
 	case *NonNull:
-		return PrepareQuery(ctx, typ.Type, selectionSet)
+		return prepareQuery(ctx, typ.Type, selectionSet, prepared)
 
 	default:
 		panic("unknown type kind")
